@@ -874,7 +874,8 @@ class TomographyInput(RotationImplemented):
                 "of the tilt series model.",
                 DeprecationWarning,
             )
-            tilt_model = single_axis(tilt_range)
+            if tilt is None:
+                tilt = tilt_range
         if tilt is None:
             tilt_model = no_wedge()
         elif isinstance(tilt, TiltSeriesModel):
